@@ -218,6 +218,17 @@ class Opaque:
 
 
 @dataclass
+class Coll:
+    """A collection of node sets each drawn from validated (hashable, not None) members - e.g. the faces of
+    simplices: results of _subfaces / powerset / combinations, and lists accumulated from them."""
+    valid: bool = True
+    line: int = 0
+
+
+SUBSET_PRODUCERS = {"_subfaces", "powerset", "combinations", "subfaces"}
+
+
+@dataclass
 class Event:
     rel: str
     sign: str  # '+' | '-'
@@ -300,6 +311,19 @@ class MethodAnalysis:
     def tick(self):
         self.order += 1
         return self.order
+
+    def is_trusted_term(self, term):
+        return term.startswith("P:") and term[2:] in self.trusted
+
+    def validated_set(self, v):
+        """Is v a materialised set of hashable, non-None IDs?"""
+        if isinstance(v, SetV):
+            if v.source is None:
+                return True
+            return v.materialized and v.source in self.hashable_sources and v.source in self.nonnull_sources
+        if isinstance(v, CallerData):
+            return self.is_trusted_term(v.term)
+        return False
 
     # ------------------------------------------------------------------ statements
     def block(self, stmts, env, conds, loops):
@@ -437,8 +461,15 @@ class MethodAnalysis:
         it = self.ev(st.iter, env, conds, loops, st)
         self.loop_counter += 1
         lid = self.loop_counter
-        dom, src, caller = self.iter_domain(it, st, env, conds, loops)
-        self.bind_target(st.target, dom, src, caller, lid, st, env)
+        if isinstance(it, Coll) and isinstance(st.target, ast.Name):
+            src = f"face@{st.lineno}"
+            if it.valid:
+                self.hashable_sources.add(src); self.nonnull_sources.add(src)
+            env[st.target.id] = SetV(Atom("$", "in", src), source=src, materialized=True, caller=not it.valid)
+            self.loop_vars[lid] = None
+        else:
+            dom, src, caller = self.iter_domain(it, st, env, conds, loops)
+            self.bind_target(st.target, dom, src, caller, lid, st, env)
         benv = dict(env)
         self.block(st.body, benv, conds, loops + (lid,))
         # names assigned in the loop body stay visible afterwards
@@ -553,6 +584,9 @@ class MethodAnalysis:
             return SetV(Atom("$", "in", f"keys({it.name})")), None, False
         if it in ("NODEVIEW", "EDGEVIEW"):
             return SetV(Atom("$", "in", "keys(N)" if it == "NODEVIEW" else "keys(E)")), None, False
+        if isinstance(it, CallerData) and self.is_trusted_term(it.term):
+            self.hashable_sources.add(it.term); self.nonnull_sources.add(it.term)
+            return SetV(Atom("$", "in", it.term), source=it.term, materialized=True, caller=False), it.term, False
         if isinstance(it, CallerData):
             first = it.term not in self.consumed
             tok = self.consume(it.term, st, "iterated")
@@ -810,6 +844,8 @@ class MethodAnalysis:
                 if isinstance(args[0], CallerData):
                     return CallerData(f"iter({args[0].term})")
                 return args[0]
+            if name in SUBSET_PRODUCERS:
+                return Coll(valid=bool(args) and self.validated_set(args[0]), line=node.lineno)
             if name in ("len", "isinstance", "issubclass", "type", "all", "any", "warn", "print", "str", "repr", "int", "float", "bool", "min", "max", "hash", "deepcopy", "copy", "dict", "zip", "map", "enumerate", "filter", "sum", "id", "callable", "getattr", "hasattr", "count", "frozen", "defaultdict", "combinations", "powerset"):
                 return Opaque(name)
             if name == "update_uid_counter":
@@ -823,6 +859,8 @@ class MethodAnalysis:
             base = self.ev(f.value, env, conds, loops, st, quiet)
             args = [self.ev(a, env, conds, loops, st, quiet) for a in node.args]
             if base == "SELF":
+                if m in SUBSET_PRODUCERS and m not in self.writer_methods:
+                    return Coll(valid=bool(args) and self.validated_set(args[0]), line=node.lineno)
                 return self.self_call(m, node, args, env, conds, loops, st)
             if base in ("NODEVIEW", "EDGEVIEW"):
                 rel = "N" if base == "NODEVIEW" else "E"
@@ -854,6 +892,11 @@ class MethodAnalysis:
         return Opaque("call")
 
     def materialize(self, v, how, st, conds, loops, quiet):
+        if isinstance(v, Coll):
+            return v
+        if isinstance(v, CallerData) and self.is_trusted_term(v.term):
+            self.hashable_sources.add(v.term); self.nonnull_sources.add(v.term)
+            return SetV(Atom("$", "in", v.term), source=v.term, materialized=True, caller=False)
         if isinstance(v, CallerData):
             tok = None
             if not quiet:
@@ -1015,6 +1058,16 @@ class MethodAnalysis:
     def aug(self, st, env, conds, loops):
         if isinstance(st.target, ast.Name):
             v = env.get(st.target.id)
+            if isinstance(st.op, ast.Add):
+                r = self.ev(st.value, env, conds, loops, st)
+                lv = v
+                if isinstance(lv, SetV) and lv.f == FALSE:
+                    lv = Coll(True, st.lineno)
+                if isinstance(lv, Coll):
+                    env[st.target.id] = Coll(lv.valid and isinstance(r, Coll) and r.valid, st.lineno)
+                    return
+                env[st.target.id] = Opaque("aug-add")
+                return
             if isinstance(v, Entry):
                 raise Unsupported(f"{self.fn.fq}:{st.lineno}: augmented assignment on a stored member set")
             if isinstance(v, SetV):
@@ -1097,7 +1150,9 @@ class MethodAnalysis:
             else:
                 sv = self.as_set(val)
                 if sv is None:
-                    if isinstance(val, CallerData):
+                    if isinstance(val, CallerData) and self.is_trusted_term(val.term):
+                        sv = SetV(Atom("$", "in", val.term), source=val.term, materialized=True, caller=False)
+                    elif isinstance(val, CallerData):
                         tok = self.consume(val.term, st, "stored")
                         sv = SetV(Atom("$", "in", val.term), source=val.term, materialized=False, caller=True, toks=frozenset([tok]))
                     else:
